@@ -498,11 +498,19 @@ fn direct_list(rng: &mut Rng, cfg: &GenCfg) -> Vec<Stmt> {
             g.simple_line_public(&mut then);
             let mut els = vec![];
             g.simple_line_public(&mut els);
+            // in a third the list ends with an END inside the branch (taken or not)
+            let end_in_branch = rng.pct(33);
+            if end_in_branch {
+                if rng.pct(50) {
+                    then.clear();
+                }
+                then.push(Stmt::End);
+            }
             out.push(Stmt::If {
-                cond: g.cond(1),
+                cond: if end_in_branch && rng.pct(50) { Expr::bin(BinOp::Eq, Expr::var("W9%"), Expr::Int(1)) } else { g.cond(1) },
                 goto_form: false,
                 then: Branch::Stmts(then),
-                els: if rng.pct(50) { Some(Branch::Stmts(els)) } else { None },
+                els: if !end_in_branch && rng.pct(50) { Some(Branch::Stmts(els)) } else { None },
             });
         }
         _ => {
@@ -635,9 +643,22 @@ impl Property for C20 {
             let mut c2 = GenCfg::swarm(rng);
             c2.size = *rng.pick(&[0usize, 2, 6, 20, 40]);
             let mut resident = render_program(&gen_program(rng, c2));
-            if rng.pct(20) {
-                resident.push("65000 GOTO 64999".into());
-                resident.push("65001 WEND".into());
+            match rng.below(10) {
+                0..=1 => {
+                    resident.push("65000 GOTO 64999".into());
+                    resident.push("65001 WEND".into());
+                }
+                2 => {
+                    // a line that does not parse *and* link-time faults (dangling branch, open WHILE)
+                    resident.push("65000 GOSUB 64999".into());
+                    resident.push("65001 WHILE 1".into());
+                    resident.push("65002 PRINT (".into());
+                }
+                3 => {
+                    resident.push("65000 PRINT )".into());
+                    resident.push("65001 ON 1 GOTO 64999,64998".into());
+                }
+                _ => {}
             }
             let nb = rng.below(4) as usize;
             let before: Vec<String> = (0..nb)
@@ -653,6 +674,11 @@ impl Property for C20 {
                         "A=1:S$=\"X\":N%=3",
                         "DIM AR(3)",
                         "PRINT \"MID\";",
+                        // refused at compile time with a branch / an open loop in them
+                        "GOTO 100:DIM A",
+                        "GOSUB 64999:DIM A",
+                        "WHILE 1:DIM A",
+                        "RESTORE 64999:PRINT (",
                     ])
                     .to_string()
                 })
@@ -688,7 +714,7 @@ impl Property for C20 {
         }
     }
     fn rule(&self) -> &'static str {
-        "one evaluation = either (60%) a generated program rendered under two layouts (1-5 transformations: monotone renumbering with seeded gaps, inserted REM / ':'-only lines (a remark may take over the branches that aimed at the line it precedes), multi-statement lines split into consecutive lines, unreachable lines appended) and run to completion with CONT on twin runtimes, transcripts and final variables compared with reported line numbers mapped back to the original statement; or (40%) a direct statement list (FOR..NEXT, WHILE..WEND, IF..THEN..ELSE, simple statements, no line references) typed into a fresh runtime and compared with the same list typed with a small / large / compile-error-carrying resident program after 0-3 other direct lines (failed, with loops, with syntax errors), or as the one-line program `10 <list>` + RUN; distinct = distinct pair of log fingerprints"
+        "one evaluation = either (60%) a generated program rendered under two layouts (1-5 transformations: monotone renumbering with seeded gaps, inserted REM / ':'-only lines (a remark may take over the branches that aimed at the line it precedes), multi-statement lines split into consecutive lines, unreachable lines appended) and run to completion with CONT on twin runtimes, transcripts and final variables compared with reported line numbers mapped back to the original statement; or (40%) a direct statement list (FOR..NEXT, WHILE..WEND, IF..THEN..ELSE, simple statements, no line references) typed into a fresh runtime and compared with the same list typed with a small / large / compile-error-carrying resident program (dangling branch, stray WEND, open WHILE, lines that do not parse, and combinations) after 0-3 other direct lines (failed, with loops, with syntax errors, refused at compile time with a branch or an open loop in them); a third of the IF lists end with an END inside the branch, or as the one-line program `10 <list>` + RUN; distinct = distinct pair of log fingerprints"
     }
     fn assumptions(&self) -> Vec<&'static str> {
         vec![
